@@ -143,6 +143,24 @@ pub fn faults(cmd: u8, s: &S, v: &V, rng: &mut Rng, out: &mut Vec<Fault>) {
                 }
             }
         }
+        for ai in [28u8, 29, 30, 31] {
+            if ai == 31 && !matches!(here, V::U(_) | V::N(_)) {
+                continue; // 31 on strings/containers is the indefinite-length fault below
+            }
+            if !matches!(here, V::U(_) | V::N(_) | V::B(_) | V::T(_) | V::A(_) | V::M(_)) {
+                continue;
+            }
+            if let Some(b) = encode_with_head(v, &node.path, ai) {
+                let mut bytes = vec![cmd];
+                bytes.extend_from_slice(&b);
+                out.push(Fault {
+                    kind: "reserved-additional-info",
+                    member: node.name.clone(),
+                    expect: 0x12,
+                    bytes,
+                });
+            }
+        }
         if matches!(here, V::B(_) | V::T(_) | V::A(_) | V::M(_)) {
             if let Some(b) = encode_with_head(v, &node.path, 255) {
                 let mut bytes = vec![cmd];
